@@ -431,6 +431,11 @@ m("c17_round_unscaled_for_small_precision", "C17", r"C17\.PRE:round:unscaled-onl
   "tera/src/filters.rs", "    let multiplier = if precision == 0 {", "    let multiplier = if precision <= 0 {")
 m("c18_render_to_block_write_error_forgiven", "C18", r"C18\.IOERR:.*render_to", "a failed write of the captured block is forgiven",
   "tera/src/vm/interpreter.rs", "            output.write_all(&state.block_buffer)?;", "            if output.write_all(&state.block_buffer).is_err() {\n                return Ok(());\n            }")
+m("c16_reverse_bytes_as_array", "C16", r"C16\.KIND:reverse:Bytes-stays-Bytes", "reversed bytes come back as an array of integers (the defect repaired by 174ddd8)",
+  "tera/src/value/mod.rs", """            ValueInner::Bytes(v) => {
+                let rev: Vec<u8> = v.iter().rev().copied().collect();
+                Ok(Self::from(rev.as_slice()))
+            }""", """            ValueInner::Bytes(v) => Ok(Self::from(v.iter().rev().copied().collect::<Vec<_>>())),""")
 # ---------------------------------------------------------------- C05
 m("c05_iso_global", "C05", r"C05\.ISO:writer:global_context", "render_component gives the component the global context",
   "tera/src/vm/interpreter.rs", """        let mut state = State::new_with_chunk(&context, chunk);
